@@ -131,6 +131,7 @@ class Env:
         self.params = params or {}
         self.checks = 0
         self.reached = set()
+        self.aux = {}  # harness-computed values the known-finding regions may refer to
 
     sym = property(lambda self: self.mode == "sym")
 
